@@ -423,6 +423,8 @@ var freshCtors = map[string]bool{
 	RepoMod + "/common.NewZeroCopySink": true, "crypto/sha256.New": true, "bytes.NewBuffer": true, "bytes.NewBufferString": true,
 	"golang.org/x/crypto/ripemd160.New": true, "golang.org/x/crypto/sha3.NewLegacyKeccak256": true, "crypto/sha512.New": true,
 	RepoMod + "/vm/neovm.NewParamsBuilder": true,
+	// an in-memory copy of the merkle tree without a hash store (used to predict roots)
+	"(*" + RepoMod + "/merkle.CompactMerkleTree).cloneMem": true,
 }
 
 // FreshObject: v is an object created in this function (an allocation or the
